@@ -1164,6 +1164,8 @@ class BaseGateway:
         # serializes the writing of whole message frames, re-entrant because
         # Channel.__del__ may send from within a thread that is just sending
         self._sendlock = self.execmodel.RLock()
+        self._sending = False
+        self._send_deferred: list[Message] = []
         # globals may be NONE at process-termination
         self.__trace = trace
         self._geterrortext = geterrortext
@@ -1218,7 +1220,21 @@ class BaseGateway:
         message = Message(msgcode, channelid, data)
         try:
             with self._sendlock:
-                message.to_io(self._io)
+                if self._sending:
+                    # Re-entered by the thread that is writing a frame right
+                    # now: a finalizer (Channel.__del__) ran in the middle of
+                    # the write.  A buffered writer refuses the re-entrant
+                    # call and the frame in progress must not be torn, so
+                    # this message goes out right behind it.
+                    self._send_deferred.append(message)
+                    return
+                self._sending = True
+                try:
+                    message.to_io(self._io)
+                    while self._send_deferred:
+                        self._send_deferred.pop(0).to_io(self._io)
+                finally:
+                    self._sending = False
             self._trace("sent", message)
         except (OSError, ValueError) as e:
             self._trace("failed to send", message, e)
